@@ -204,6 +204,8 @@ type vCfg struct {
 	mode       int  // retry: 0 off, 1 long back-off, 2 short back-off, 3 gives up immediately
 	consumers  int
 	min        int
+	wait       bool // wait_for_result (memory queue): Send returns, with the export's result, when Done is called
+	noqueue    bool // deprecated: WithBatcher without a queue = memory queue, wait_for_result, blocking, one consumer
 	// stress schedules only
 	max      int           // max_size (0 = none)
 	flush    time.Duration // flush_timeout when timer is set (0 = one hour: never fires)
@@ -221,7 +223,7 @@ func (c vCfg) term() string {
 	if c.batch {
 		n = 1 // queue_batch.go: cfg.NumConsumers = 1 when batching
 	}
-	return vList([]string{b(c.persistent), b(c.batch), b(c.timer), vNat(c.mode), vNat(n), vNat(c.min)})
+	return vList([]string{b(c.persistent), b(c.batch), b(c.timer), vNat(c.mode), vNat(n), vNat(c.min), b(c.wait)})
 }
 
 type vEvent struct {
@@ -247,6 +249,39 @@ type vRun struct {
 	returned bool
 	be       *BaseExporter
 	st       *vStorage
+	// wait_for_result: offers run in their own goroutines
+	ctx    context.Context
+	cancel context.CancelFunc
+	pwg    sync.WaitGroup
+}
+
+// offer performs one Send.  Without wait_for_result it is synchronous; with it the call returns only when
+// the request's Done callback has run, so it gets its own goroutine and the offer event (4 ok / 5 error)
+// is logged when Send returns.
+func (h *vRun) offer(id, items int) (enqueued bool) {
+	req := &vReq{ids: []int{id}, items: items}
+	if !h.cfg.wait {
+		if err := h.be.Send(context.Background(), req); err != nil {
+			h.log(5, []int{id}, 0)
+			return false
+		}
+		h.log(4, []int{id}, 0)
+		return true
+	}
+	h.pwg.Add(1)
+	go func() {
+		defer h.pwg.Done()
+		err := h.be.Send(h.ctx, req)
+		if h.ctx.Err() != nil {
+			return // the schedule is over: an offer after the return would wait for ever
+		}
+		if err != nil {
+			h.log(5, []int{id}, 0)
+		} else {
+			h.log(4, []int{id}, 0)
+		}
+	}()
+	return true
 }
 
 func (h *vRun) log(kind int, ids []int, out int) {
@@ -374,6 +409,7 @@ func (h *vRun) quiesce() bool {
 
 func vNewRun(cfg vCfg, st *vStorage, auto bool) (*vRun, error) {
 	h := &vRun{cfg: cfg, st: st, auto: auto}
+	h.ctx, h.cancel = context.WithCancel(context.Background())
 	st.mu.Lock()
 	st.h = h
 	st.mu.Unlock()
@@ -425,6 +461,10 @@ func vNewRun(cfg vCfg, st *vStorage, auto bool) (*vRun, error) {
 			rcfg.MaxElapsedTime = time.Millisecond
 		}
 		opts = append(opts, WithRetry(rcfg))
+	}
+	qcfg.WaitForResult = cfg.wait
+	if cfg.noqueue {
+		qcfg.Enabled = false
 	}
 	opts = append(opts, WithQueue(qcfg))
 	if cfg.batch && cfg.legacy {
@@ -686,6 +726,12 @@ func vSchedule(out *vOut, rng *vRand, nr int) vSched {
 	if !cfg.batch {
 		cfg.timer, cfg.legacy, cfg.min = false, false, 0
 	}
+	if !cfg.persistent && rng.Intn(100) < 25 {
+		cfg.wait = true
+		if cfg.batch && cfg.legacy && rng.Bool() {
+			cfg.noqueue = true
+		}
+	}
 	st := &vStorage{m: map[string][]byte{}}
 	h, err := vNewRun(cfg, st, false)
 	if err != nil {
@@ -714,7 +760,9 @@ func vSchedule(out *vOut, rng *vRand, nr int) vSched {
 	maxOffers := 2 + rng.Intn(6)
 	nextID := 1
 	shutdownCalled := false
-	var accepted, acceptedPre []int
+	var accepted []int // ids whose offer was enqueued
+	shutPhase := -1
+	var begunAtCall map[int]bool
 	backoff := map[int]bool{} // first id of works sitting in a long back-off
 	begunIDs := func() map[int]bool {
 		m := map[int]bool{}
@@ -779,15 +827,8 @@ func vSchedule(out *vOut, rng *vRand, nr int) vSched {
 		case 0:
 			id, items := nextID, 1+rng.Intn(3)
 			nextID++
-			err := h.be.Send(context.Background(), &vReq{ids: []int{id}, items: items})
-			if err == nil {
-				h.log(4, []int{id}, 0)
-				accepted = append(accepted, id)
-				if !shutdownCalled {
-					acceptedPre = append(acceptedPre, id)
-				}
-			} else {
-				h.log(5, []int{id}, 0)
+			if h.offer(id, items) {
+				accepted = append(accepted, id) // enqueued (with wait_for_result: not yet returned)
 			}
 			if shutdownCalled {
 				out.Stat("late_offers", 1)
@@ -815,6 +856,7 @@ func vSchedule(out *vOut, rng *vRand, nr int) vSched {
 				}
 			}
 			shutdownCalled = true
+			begunAtCall = begunIDs()
 			if len(infl) > 0 {
 				out.Stat("shutdown_with_calls_in_flight", 1)
 			}
@@ -826,6 +868,7 @@ func vSchedule(out *vOut, rng *vRand, nr int) vSched {
 				_ = h.be.Shutdown(context.Background())
 				h.log(2, nil, 0)
 			}()
+			shutPhase = len(phases)
 			ok = endPhase("(2, 0, 0)")
 		case 3:
 			tm := vBatchTimer(h.be)
@@ -873,21 +916,43 @@ func vSchedule(out *vOut, rng *vRand, nr int) vSched {
 		if rng.Intn(100) < 50 {
 			id := nextID
 			nextID++
-			err := h.be.Send(context.Background(), &vReq{ids: []int{id}, items: 1})
-			if err == nil {
-				h.log(4, []int{id}, 0)
+			if h.offer(id, 1) {
 				accepted = append(accepted, id)
-			} else {
-				h.log(5, []int{id}, 0)
 			}
 			out.Stat("offers_after_return", 1)
 			ok = endPhase(fmt.Sprintf("(0, %d, 1)", id))
 		}
 	}
+	// producers still waiting for a result (an offer after the return is never answered) are not helpers
+	h.cancel()
+	h.pwg.Wait()
 	_, helpers, _ := h.snapshot()
 	stored := st.storedIDs()
 	if !cfg.persistent {
 		stored = nil
+	}
+	// "enqueue completed before shutdown was requested" = Send returned nil before Shutdown was called
+	var acceptedPre []int
+	h.mu.Lock()
+	for _, e := range h.events {
+		if e.kind == 7 {
+			break
+		}
+		if e.kind == 4 {
+			acceptedPre = append(acceptedPre, e.ids...)
+		}
+	}
+	h.mu.Unlock()
+	if res.racy && shutPhase >= 0 && shutPhase < len(phases) {
+		// tell the model how the race went: m = ids whose first export began after Shutdown was called
+		m := 0
+		for i := range begunIDs() {
+			if !begunAtCall[i] {
+				m++
+			}
+		}
+		phases[shutPhase] = strings.Replace(phases[shutPhase], "((2, 0, 0),", fmt.Sprintf("((2, %d, 1),", m), 1)
+		out.Stat("race_observed_m", m)
 	}
 	res.term = fmt.Sprintf("(%s, %s, (%s, %d))", cfg.term(), vList(phases), vIDs(stored), helpers)
 
@@ -918,6 +983,12 @@ func vSchedule(out *vOut, rng *vRand, nr int) vSched {
 		}
 	}
 	out.Stat("cfg_"+qk+"_"+bk, 1)
+	if cfg.wait {
+		out.Stat("cfg_wait_for_result", 1)
+	}
+	if cfg.noqueue {
+		out.Stat("cfg_batcher_without_queue", 1)
+	}
 	out.Stat(fmt.Sprintf("cfg_retry_mode_%d", cfg.mode), 1)
 	out.Stat(fmt.Sprintf("cfg_consumers_%d", cfg.consumers), 1)
 	out.Stat("actions", len(phases))
@@ -943,8 +1014,15 @@ func vStress(out *vOut, rng *vRand, nr int) (failed, abort bool) {
 		min:        1 + rng.Intn(8),
 	}
 	if cfg.batch {
-		if rng.Bool() {
+		switch rng.Intn(10) {
+		case 0, 1, 2, 3:
 			cfg.max = cfg.min + rng.Intn(6)
+		case 4, 5, 6:
+			// small max_size: single requests (1-3 items) are split, merged batches spill over
+			cfg.max = 1 + rng.Intn(3)
+			if cfg.min > cfg.max {
+				cfg.min = cfg.max
+			}
 		}
 		if rng.Intn(100) < 70 {
 			cfg.flush = time.Duration(1+rng.Intn(4)) * time.Millisecond
@@ -962,7 +1040,7 @@ func vStress(out *vOut, rng *vRand, nr int) (failed, abort bool) {
 		return true, false
 	}
 	h.mu.Lock()
-	h.stress = vNewRand(uint64(1000003*nr + 17))
+	h.stress = &vRand{s: rng.U64()}
 	h.mu.Unlock()
 	desc := fmt.Sprintf("stress #%d cfg=%+v", nr, cfg)
 	fail := func(kind, detail string) {
@@ -1046,8 +1124,8 @@ func vStress(out *vOut, rng *vRand, nr int) (failed, abort bool) {
 	wg.Wait()
 	// let the scheduler retire the goroutines that have finished their work
 	helpers := 0
-	for k := 0; k < 2000; k++ {
-		if _, helpers, _ = h.snapshot(); helpers == 0 {
+	for deadline := time.Now().Add(10 * time.Second); ; {
+		if _, helpers, _ = h.snapshot(); helpers == 0 || time.Now().After(deadline) {
 			break
 		}
 		time.Sleep(100 * time.Microsecond)
@@ -1096,7 +1174,10 @@ func vStress(out *vOut, rng *vRand, nr int) (failed, abort bool) {
 func TestVerifC03(t *testing.T) {
 	out := vOpen()
 	defer out.Close()
+	// vNewRand's state is (seed+n)*golden + salt: the streams of neighbouring seeds are shifted copies of each
+	// other and re-synchronise after a few schedules; re-seed from the first (mixed) output instead
 	rng := vNewRand(3)
+	rng.s = rng.U64()
 	n := vBudget(720, 20)
 	t0 := time.Now()
 	for k := 0; k < n; k++ {
@@ -1110,7 +1191,9 @@ func TestVerifC03(t *testing.T) {
 		case r.failed:
 			out.Stat("schedules_failed", 1)
 		case r.racy:
-			out.Stat("schedules_oracle_only_racy", 1)
+			out.Stat("schedules_with_observed_race", 1)
+			out.Case(true, r.term)
+			out.Stat("schedules_compared", 1)
 		default:
 			out.Case(strings.Contains(r.term, "(1, "), r.term)
 			out.Stat("schedules_compared", 1)
@@ -1119,6 +1202,7 @@ func TestVerifC03(t *testing.T) {
 	out.Stat("gated_wall_ms", int(time.Since(t0).Milliseconds()))
 	t1 := time.Now()
 	srng := vNewRand(33)
+	srng.s = srng.U64()
 	for k, ns := 0, vBudget(400, 20); k < ns; k++ {
 		f, abort := vStress(out, srng, k)
 		if f {
